@@ -213,7 +213,7 @@ fn k_lost_all_rabbits() {
 ///   ensures   forall i: at(new,i) == after_step_at(old,src,dst,i)
 ///             board_wf(new) && trap_clean(new)             (all eight words consistent)
 ///             flag <=> some piece was removed
-// @obl props=C02,C10,C13,C19 tier=quick kind=harness-contract mem=3 est=35
+// @obl props=C02,C05,C10,C13,C19 tier=quick kind=harness-contract mem=3 est=35
 // @fns PieceBoard::take_action PieceBoard::move_piece PieceBoard::remove_trapped_pieces PieceBoardState::trapped_piece_bits shift_piece_in_direction shift_in_direction both_player_unsupported_piece_bits both_player_supported_pieces supported_pieces animal_is_on_trap Square::as_bit_board
 // @clause requires legal_board(old) && at(old,src)!=None && nbr(src,d)==Some(dst) && at(old,dst)==None
 // @clause ensures forall i<64: at(new,i)==after_step_at(old,src,dst,i); board_wf(new); trap_clean(new); flag <=> a piece was removed; no panic/overflow
@@ -372,7 +372,7 @@ pub fn seam_offers(v: &[Action], base: usize, i: u8, d: Direction) -> bool {
 // ===========================================================================
 // C01 generators (layer 3)
 // ===========================================================================
-// @obl props=C01,C07,C19 tier=quick kind=harness-contract mem=4 est=60
+// @obl props=C01,C04,C07,C19 tier=quick kind=harness-contract mem=4 est=60
 // @fns GameState::extend_with_valid_curr_player_piece_moves GameState::curr_player_non_frozen_pieces can_move_in_direction GameState::invalid_rabbit_moves
 // @clause requires board_wf. ensures (seam abstracted, A1): the seam is called once per direction with a non-empty mask, in Up,Right,Down,Left order, one Move(REP,d) appended per call, nothing else; forall (i,d): bit(mask_d,i) <=> simple_step(pb,side,i,d) = unfrozen piece of the mover on i, nbr(i,d) empty, not a rabbit moving backward
 #[kani::proof]
@@ -391,7 +391,7 @@ fn c01_gen_steps() {
     assert!(seam_list_ok(&v, 0, rep), "C01: one Move(REP,d) per non-empty direction mask, directions ascending");
     assert!(seam_offers(&v, 0, i, d) == simple_step(&pb, side, i, d), "C01: offered single steps == legal single steps");
 }
-// @obl props=C01,C07,C19 tier=quick kind=harness-contract mem=5 est=90
+// @obl props=C01,C04,C07,C19 tier=quick kind=harness-contract mem=5 est=90
 // @fns GameState::extend_with_push_piece_actions GameState::curr_player_non_frozen_pieces GameState::threatened_pieces can_move_in_direction PushPullState::can_push
 // @clause requires board_wf, wf_status, step in 0..3 (all four, symbolic). ensures (seam abstracted): nothing is produced when a push is pending or step == 3; otherwise forall (i,d): bit(mask_d,i) <=> push_start = enemy piece on i, nbr(i,d) empty, an unfrozen strictly stronger piece of the mover adjacent to i
 #[kani::proof]
@@ -760,7 +760,7 @@ fn step_transition(step: usize) {
         assert!(np.piece_trapped_this_turn() == (trapped || captured), "C05: capture flag accumulates within the turn");
     }
 }
-// @obl props=C02,C03,C05,C08,C10,C12,C14,C19 tier=quick kind=harness-contract mem=6 est=120 timeout=1500
+// @obl props=C02,C03,C05,C06,C08,C10,C12,C14,C19 tier=quick kind=harness-contract mem=6 est=120 timeout=1500
 // @fns GameState::take_action GameState::move_piece PieceBoard::take_action GameState::next_piece_boards_this_move GameState::next_push_pull_state Zobrist::move_piece step_value PlayPhase::initial PlayPhase::new List::append List::clone
 // @clause step 0 of a turn. requires board_wf, status None, any Move(i,d), move_number < usize::MAX. ensures board == PieceBoard::take_action(old board) (contract c02); same side, step 1, move number same; status == next_push_pull_state(old) (contract c12); per-turn record == [old board]; hash' == hash ^ STEP[0] ^ STEP[1] ^ delta; initial hash kept; history unchanged or reset at capture; capture flag accumulated; no panic
 #[kani::proof]
@@ -769,7 +769,7 @@ fn step_transition(step: usize) {
 fn t_step_at_0() {
     step_transition(0);
 }
-// @obl props=C02,C03,C05,C08,C12,C14,C19 tier=quick kind=harness-contract mem=6 est=150 timeout=1500
+// @obl props=C02,C03,C05,C06,C08,C12,C14,C19 tier=quick kind=harness-contract mem=6 est=150 timeout=1500
 // @fns GameState::take_action GameState::move_piece GameState::next_piece_boards_this_move GameState::next_push_pull_state
 // @clause step 1 (same postcondition, record of length 1 -> 2, any status)
 #[kani::proof]
@@ -778,7 +778,7 @@ fn t_step_at_0() {
 fn t_step_at_1() {
     step_transition(1);
 }
-// @obl props=C02,C03,C05,C08,C12,C14,C19 tier=quick kind=harness-contract mem=6 est=150 timeout=1500
+// @obl props=C02,C03,C05,C06,C08,C12,C14,C19 tier=quick kind=harness-contract mem=6 est=150 timeout=1500
 // @fns GameState::take_action GameState::move_piece GameState::next_piece_boards_this_move GameState::next_push_pull_state
 // @clause step 2 (same postcondition, record of length 2 -> 3, any status)
 #[kani::proof]
@@ -787,7 +787,7 @@ fn t_step_at_1() {
 fn t_step_at_2() {
     step_transition(2);
 }
-// @obl props=C02,C03,C05,C08,C12,C14,C19 tier=quick kind=harness-contract mem=6 est=120 timeout=1500
+// @obl props=C02,C03,C05,C06,C08,C12,C14,C19 tier=quick kind=harness-contract mem=6 est=120 timeout=1500
 // @fns GameState::take_action GameState::move_piece PlayPhase::initial List::append
 // @clause step 3 = turn end. ensures board == rule result; other side, step 0, status None, empty per-turn record, move number +1 iff Silver moved; hash' == hash ^ PLAYER_TO_MOVE ^ STEP[3] ^ STEP[0] ^ delta; initial hash == hash'; history == (captured ? [] : old) ++ [hash']; capture flag false
 #[kani::proof]
@@ -827,7 +827,7 @@ fn pass_transition(step: usize) {
     assert!(hh.head().map(|z| raw(z)) == Some(want_hash), "C05/C08: the recorded entry is the new turn-start hash");
     assert!(!np.piece_trapped_this_turn(), "C05: capture flag reset at turn start");
 }
-// @obl props=C02,C03,C05,C08,C12,C14,C19 tier=quick kind=harness-contract mem=4 est=40
+// @obl props=C02,C03,C05,C06,C08,C12,C14,C19 tier=quick kind=harness-contract mem=4 est=40
 // @fns GameState::take_action GameState::pass Zobrist::pass PlayPhase::initial List::append List::clone
 // @clause pass at step 1, 2 and 3 (three obligations). requires board_wf, no push pending, move_number < usize::MAX. ensures board unchanged (all eight words); other side, step 0, status None, empty record; move number +1 iff Silver passed; hash' == hash ^ PLAYER_TO_MOVE ^ STEP[step] ^ STEP[0] == initial hash'; history == (capture this turn ? [] : old) ++ [hash']; flag reset
 #[kani::proof]
@@ -835,7 +835,7 @@ fn pass_transition(step: usize) {
 fn t_pass_at_1() {
     pass_transition(1);
 }
-// @obl props=C02,C03,C05,C08,C19 tier=quick kind=harness-contract mem=4 est=40
+// @obl props=C02,C03,C05,C06,C08,C19 tier=quick kind=harness-contract mem=4 est=40
 // @fns GameState::take_action GameState::pass
 // @clause pass at step 2 (same postcondition)
 #[kani::proof]
@@ -843,7 +843,7 @@ fn t_pass_at_1() {
 fn t_pass_at_2() {
     pass_transition(2);
 }
-// @obl props=C02,C03,C05,C08,C19 tier=quick kind=harness-contract mem=4 est=40
+// @obl props=C02,C03,C05,C06,C08,C19 tier=quick kind=harness-contract mem=4 est=40
 // @fns GameState::take_action GameState::pass
 // @clause pass at step 3 (same postcondition)
 #[kani::proof]
@@ -966,7 +966,7 @@ pub fn action_list_eq(v: &[Action], want: &[Option<Action>; 6]) -> bool {
     }
     ok && k == v.len()
 }
-// @obl props=C09,C07,C10,C19 tier=quick kind=harness-contract mem=6 est=150 timeout=1500
+// @obl props=C07,C08,C09,C10,C19 tier=quick kind=harness-contract mem=6 est=150 timeout=1500
 // @fns GameState::place GameState::valid_placement GameState::valid_actions_ PieceBoardState::placement_bit first_set_bit single_bit_index_u64 PieceBoard::new Zobrist::place_piece GameState::curr_player_piece_mask Square::from_bit_board GameState::is_terminal GameState::is_play_phase
 // @clause requires wf_place(board,n) for a symbolic n in 0..31 (every prefix of every placement order), mover == (n<16). ensures valid_actions() == [Place(t) for t in E,M,H,D,C,R with count(t,mover) < complement(t)], non-empty; is_terminal == None; for every offered t: place puts (t, mover) on the n-th home square (Gold a2..h2,a1..h1; Silver a8..h8,a7..h7), changes nothing else, keeps wf_place(n+1); Silver on move after the 16th, play phase/Gold/move 2/step 0/nothing pending/history == [hash'] after the 32nd, else still setup with move number 1; hash' == hash ^ piece_value(target,t,mover) ^ (PLAYER_TO_MOVE at the 16th and 32nd) ^ (STEP[0] at the 32nd); no panic (first_set_bit(0) unreachable)
 #[kani::proof]
@@ -1128,7 +1128,7 @@ fn filter_case(len: usize) {
     let h = gs.has_non_passing_like_action(copy_for_query);
     assert!(h == (v.len() > 0), "C07: has_non_passing_like_action(list) <=> the filtered list is non-empty");
 }
-// @obl props=C06,C07,C19 tier=quick kind=harness-contract mem=6 est=120 timeout=1500
+// @obl props=C05,C06,C07,C19 tier=quick kind=harness-contract mem=6 est=120 timeout=1500
 // @fns GameState::remove_passing_like_actions GameState::has_non_passing_like_action
 // @clause lists of length 0..3 of symbolic actions (A1 generalises over the length), is_passing_like_action abstracted to an uninterpreted predicate P (its contract: c06_is_passing_like_3), all steps / capture flags: the filter keeps exactly [a | !(step==3 && !captured_this_turn && P(a))] in order; has_non_passing_like_action(list) <=> that filtered list is non-empty
 #[kani::proof]
@@ -1287,7 +1287,7 @@ fn no_dups(a: &[Action]) -> bool {
     ok
 }
 
-// @obl props=C01,C06,C19 tier=quick kind=harness-contract mem=8 est=200 timeout=1800
+// @obl props=C01,C06,C07,C19 tier=quick kind=harness-contract mem=8 est=200 timeout=1800
 // @fns GameState::valid_actions_ GameState::valid_actions_no_rep GameState::valid_actions
 // @clause assembly, fully modular: the four generators, can_pass and remove_passing_like_actions are replaced by abstractions of their contracts (0..1 symbolic action each, disjointness as proved; the filter abstraction appends a marker to the list it is given); check_repititions symbolic, all statuses: result == completions when a push is pending, else push starts ++ pull completions not already listed ++ own steps ++ [Pass iff can_pass(check_repititions)], in this order, followed by the filter marker exactly when check_repititions (filter invoked once, last, on the whole list); no action listed twice
 #[kani::proof]
